@@ -69,6 +69,24 @@ func analyzeFold(p *core.Program, fi *core.FuncInfo) *foldLoop {
 		}
 		break
 	}
+	// the whole body delegated to an unexported helper of the package: return hashBody(bytes)
+	if len(body) == 1 {
+		if rs, ok := body[0].(*ast.ReturnStmt); ok && len(rs.Results) == 1 {
+			if call, ok := ast.Unparen(rs.Results[0]).(*ast.CallExpr); ok && len(call.Args) == 1 {
+				if fn := calleeFunc(info, call); fn != nil && !fn.Exported() && fn.Pkg() == fi.Obj.Pkg() {
+					if _, isParam := ast.Unparen(call.Args[0]).(*ast.Ident); isParam {
+						if cfi := p.FuncOf(fn); cfi != nil && cfi != fi && cfi.Decl.Body != nil {
+							sub := analyzeFold(p, cfi)
+							if sub.EmptyGuard == "" {
+								sub.EmptyGuard = out.EmptyGuard
+							}
+							return sub
+						}
+					}
+				}
+			}
+		}
+	}
 	fr := ip.NewFrame(fi)
 	// locate the loop
 	li := -1
@@ -127,15 +145,33 @@ func analyzeFold(p *core.Program, fi *core.FuncInfo) *foldLoop {
 		init, ok1 := loop.Init.(*ast.AssignStmt)
 		cond, ok2 := loop.Cond.(*ast.BinaryExpr)
 		post, ok3 := loop.Post.(*ast.IncDecStmt)
-		if !ok1 || !ok2 || !ok3 || cond.Op != token.LSS || post.Tok != token.INC || len(init.Rhs) != 1 {
+		if !ok1 || !ok2 || !ok3 || cond.Op != token.LSS || post.Tok != token.INC || len(init.Rhs) != len(init.Lhs) {
 			out.Why = "loop is not `for i := 0; i < n; i++`"
 			return out
 		}
-		if tv, ok := info.Types[init.Rhs[0]]; !ok || tv.Value == nil || constant.Compare(tv.Value, token.NEQ, constant.MakeInt64(0)) {
-			out.Why = "loop does not start at byte 0"
+		// for i, n := 0, len(bytes); i < n; i++ : the counter is the variable stepped by the post statement
+		pid, _ := post.X.(*ast.Ident)
+		for k, l := range init.Lhs {
+			lid, ok := l.(*ast.Ident)
+			if !ok {
+				continue
+			}
+			if pid != nil && info.ObjectOf(lid) == info.ObjectOf(pid) {
+				if tv, ok := info.Types[init.Rhs[k]]; !ok || tv.Value == nil || constant.Compare(tv.Value, token.NEQ, constant.MakeInt64(0)) {
+					out.Why = "loop does not start at byte 0"
+					return out
+				}
+				iobj = info.ObjectOf(lid)
+			} else if call, ok := ast.Unparen(init.Rhs[k]).(*ast.CallExpr); ok {
+				if id, ok := call.Fun.(*ast.Ident); ok && id.Name == "len" {
+					lenVar = info.ObjectOf(lid)
+				}
+			}
+		}
+		if iobj == nil {
+			out.Why = "loop is not `for i := 0; i < n; i++`"
 			return out
 		}
-		iobj = info.ObjectOf(init.Lhs[0].(*ast.Ident))
 		boundOK := false
 		switch b := ast.Unparen(cond.Y).(type) {
 		case *ast.Ident:
@@ -176,6 +212,20 @@ func analyzeFold(p *core.Program, fi *core.FuncInfo) *foldLoop {
 	fr.Bind(acc, &bits.Value{V: bits.Input("acc", out.Width), Sign: iv.Sign})
 	if bobj != nil {
 		fr.Bind(bobj, &bits.Value{V: bits.Input("b", 8)})
+	}
+	if iobj != nil {
+		// bytes[i] used in place: the byte of this iteration
+		fr.Bind(iobj, &bits.Value{V: bits.Const(0, 64), Sign: true})
+		ast.Inspect(loopBody, func(n ast.Node) bool {
+			if ix, ok := n.(*ast.IndexExpr); ok {
+				if id, ok := ast.Unparen(ix.Index).(*ast.Ident); ok && info.ObjectOf(id) == iobj {
+					if sid, ok := ast.Unparen(ix.X).(*ast.Ident); ok && isByteSliceOrString(info.TypeOf(sid)) {
+						fr.Bind(info.ObjectOf(sid), &bits.Value{B: &bits.Bytes{Name: "in", Cells: map[int]bits.Vec{0: bits.Input("b", 8)}, Len: -1, Input: true}})
+					}
+				}
+			}
+			return true
+		})
 	}
 	for _, s := range loopBody.List {
 		// b := bytes[i]
